@@ -7,13 +7,13 @@ wt="$1"; x="$2"; dir="$3"; tag="${4:-seeddemo}"
 cd "$wt" || exit 2
 git checkout -q -- .
 cp SEED/$x/demo_test.go "$dir/zz_seed_${x}_demo_test.go"
-go test -vet=off -count=1 -tags "$tag" -run 'Seed|DataURI' "./$dir" >/dev/null 2>&1; r0=$?
+go test -vet=off -count=1 -tags "$tag" -run 'Seed|Demo|DataURI' "./$dir" >/dev/null 2>&1; r0=$?
 git apply SEED/$x/patch.diff || { echo "RESULT $wt $x: patch does not apply"; rm -f "$dir/zz_seed_${x}_demo_test.go"; exit 1; }
 go build ./... || { echo "RESULT $wt $x: build fails"; }
 rm -f "$dir/zz_seed_${x}_demo_test.go"
 go test -vet=off -count=1 ./... >/dev/null 2>&1; rs=$?
 cp SEED/$x/demo_test.go "$dir/zz_seed_${x}_demo_test.go"
-go test -vet=off -count=1 -tags "$tag" -run 'Seed|DataURI' "./$dir" >/dev/null 2>&1; r1=$?
+go test -vet=off -count=1 -tags "$tag" -run 'Seed|Demo|DataURI' "./$dir" >/dev/null 2>&1; r1=$?
 rm -f "$dir/zz_seed_${x}_demo_test.go"
 git diff > SEED/$x/patch.rebased.diff
 git checkout -q -- .
